@@ -56,6 +56,8 @@ class G16:
             opts += ['defeat']
         if r.random() < 0.05:
             opts += ['win']
+        if r.random() < 0.12:
+            opts += ['fakewin', 'fakewin']
         c = r.choice(opts)
         if c == 'ret':
             return ret(None if ctx['ret'] == 'empty' else bin_('+', V('z'), I(r.randrange(100))))
@@ -65,6 +67,10 @@ class G16:
             return ('cont',)
         if c == 'defeat':
             return ex(call('!is_defeat'))
+        if c == 'fakewin':
+            # user overloads of the terminal names return normally
+            self.fake = True
+            return ex(call(r.choice(('all_is_win', 'all_is_broken')), V('z')))
         return ex(call('all_is_win'))
 
     def stmts(self, depth, ctx, n=None):
@@ -145,7 +151,11 @@ class G16:
                 show = [try_(block(*show, write(C('k'))), r.choice(('undo', 'stop')), block(write(C('h'))))]
             calls += show
         main = func('empty', '@is_you', [('int', 'q')], *calls, write(S('END')))
-        return prog([], fs + [main])
+        extra = []
+        if getattr(self, 'fake', False):
+            extra = [func('empty', 'all_is_win', [('int', 'p')], write(S('(w)'))),
+                     func('empty', 'all_is_broken', [('int', 'p')], write(S('(b)')))]
+        return prog([], extra + fs + [main])
 
 
 def judge(p, W):
